@@ -1,6 +1,6 @@
 //! C18 replay (needs feature `hooks`): queue pops of RankCalc::calc on complete DAGs vs the bound n*n+n, and the
 //! wall time of build() on layered and dense graphs of a few dozen functions (the statement's "build promptly"):
-//! each build runs on a worker thread with a 20 s budget; on the unchanged tree these builds take milliseconds, a
+//! each build runs on a worker thread with a budget of 20 s (more on a loaded machine: 3000 x the build time of a chain of 60); on the unchanged tree these builds take milliseconds, a
 //! build whose work follows the number of paths (3^17, 4^13, 2^27 for the largest graphs) does not come back.
 use fn_graph::FnGraphBuilder;
 use fn_graph_replay::*;
@@ -26,6 +26,21 @@ fn main() {
             }
             let _ = g;
         }
+        // the budget of the timed builds follows the speed of this machine right now, measured on a graph where every algorithm
+        // that is polynomial OR walks paths takes the same time: a chain of 60 functions (one path per function). The timed graphs
+        // have at most ~8 times its edges and the same number of functions, so a polynomial build stays within a few hundred
+        // times this duration, while a build that walks paths needs 2^27 .. 3^17 steps
+        let t_ref = {
+            let t0 = std::time::Instant::now();
+            for _ in 0..5 {
+                let mut b = FnGraphBuilder::new();
+                let ids: Vec<_> = (0..60usize).map(|i| b.add_fn(Acc { id: i, reads: vec![], writes: vec![0] })).collect();
+                for i in 0..59 { b.add_logic_edge(ids[i], ids[i + 1]).unwrap(); }
+                let _ = b.build();
+            }
+            t0.elapsed().as_secs_f64() / 5.0
+        };
+        let budget = std::time::Duration::from_secs_f64((t_ref * 3000.0).clamp(20.0, 600.0));
         // layered graphs: `layers` layers of `width` functions, every function connected to every function of the next layer
         for (width, layers) in [(2usize, 8usize), (3, 8), (3, 12), (4, 12), (2, 24), (3, 18), (4, 14), (2, 28)] {
             let n = width * layers;
@@ -39,13 +54,13 @@ fn main() {
                 let g = b.build();
                 let _ = tx.send((fn_graph::verif_hooks::rank_calc_pops(), g.ranks().iter().map(|r| r.0).collect::<Vec<_>>()));
             });
-            match rx.recv_timeout(std::time::Duration::from_secs(20)) {
+            match rx.recv_timeout(budget) {
                 Ok((pops, ranks)) => {
                     if pops > n * n + n { println!("VIOLATION: layered {width}x{layers}: {pops} pops > n*n+n"); std::process::exit(1); }
                     if ranks != (0..n).map(|i| i / width).collect::<Vec<_>>() { println!("VIOLATION: layered {width}x{layers}: ranks {ranks:?}"); std::process::exit(1); }
                 }
                 Err(_) => {
-                    println!("VIOLATION: build() of the layered graph {width}x{layers} ({n} functions, {} edges) did not finish within 20 s (elapsed {:?}): its work is not polynomial in functions and edges", (layers - 1) * width * width, t0.elapsed());
+                    println!("VIOLATION: build() of the layered graph {width}x{layers} ({n} functions, {} edges) did not finish within the budget of {budget:?} (elapsed {:?}): its work is not polynomial in functions and edges", (layers - 1) * width * width, t0.elapsed());
                     std::process::exit(1);
                 }
             }
@@ -65,10 +80,10 @@ fn main() {
                 let g = b.build();
                 let _ = tx.send((fn_graph::verif_hooks::rank_calc_pops(), g.graph.edge_count()));
             });
-            match rx.recv_timeout(std::time::Duration::from_secs(20)) {
+            match rx.recv_timeout(budget) {
                 Ok((pops, _)) => if pops > n * n + n { println!("VIOLATION: {desc}: {pops} pops > n*n+n"); std::process::exit(1); },
                 Err(_) => {
-                    println!("VIOLATION: build() of {desc} ({n} functions, {ne} logic edges) did not finish within 20 s (elapsed {:?}): its work is not polynomial in functions and edges", t0.elapsed());
+                    println!("VIOLATION: build() of {desc} ({n} functions, {ne} logic edges) did not finish within the budget of {budget:?} (elapsed {:?}): its work is not polynomial in functions and edges", t0.elapsed());
                     std::process::exit(1);
                 }
             }
